@@ -13,6 +13,8 @@ Property theorems about `JinnsModel/Operators.lean` (reverse-mode operators, tra
 No hypothesis on `ops` is needed (these are index-routing facts).
 -/
 import JinnsModel.Operators
+import JinnsModel.OperatorsPoly
+import JinnsModel.HoldsC01
 import JinnsModel.Poly
 
 namespace Jinns.Operators
@@ -196,6 +198,48 @@ theorem vecLapRev_local (ops : FieldOps F) (d : Nat) (sig : Sig) (m : Nat) (u v 
 theorem advRev_local (ops : FieldOps F) (sig : Sig) (u v : Nat → F) (h0 : u 0 = v 0) (h1 : u 1 = v 1) :
     advRev ops sig u = advRev ops sig v := by
   cases sig <;> simp only [advRev, h0, h1]
+
+
+/-! ### the model satisfies `Holds.C01` -/
+
+open Jinns.Holds in
+theorem sumP_eq_sum (d : Nat) (g : Nat → Poly) : sumP d g = polyOps.sum d g := rfl
+
+open Jinns.Holds Jinns.Residuals in
+/-- on exact polynomials every operator of the model IS the mathematical operator `Holds.C01` compares
+    with — as polynomials, hence at every point; for every operator, signature, dimension, number of
+    components, field and parameters. -/
+theorem runRev_eq_expected (op : OpName) (sig : Sig) (d m : Nat) (u : List Poly) (nu rho : Rat)
+    (pt : List Rat) :
+    evalAll (runRev op sig d m u nu rho) pt = expected01 op d m u nu rho pt := by
+  have h0 : ∀ f, nth polyOps (gradX polyOps 2 f) 0 = polyOps.dX 0 f := fun f => nth_gradX polyOps 2 0 f (by omega)
+  have h1 : ∀ f, nth polyOps (gradX polyOps 2 f) 1 = polyOps.dX 1 f := fun f => nth_gradX polyOps 2 1 f (by omega)
+  cases op
+  · simp only [runRev, expected01, evalAll, List.map_cons, List.map_nil, lapRev_eq]
+    rfl
+  · simp only [runRev, expected01, evalAll, List.map_cons, List.map_nil, divRev_eq]
+    rfl
+  · simp only [runRev, expected01, evalAll, vecLapRev, List.map_map, lapRev_eq]
+    rfl
+  · cases sig <;>
+    · simp only [runRev, expected01, evalAll, advRev, gradArg, h0, h1]
+      simp [mathAdv, sumP, List.range_succ, compP, comp, dxP, polyOps]
+  · simp only [runRev, expected01, evalAll, nsRev, advRev, gradArg, h0, h1, vecLapRev, lapRev_eq]
+    simp [mathNS, mathAdv, mathLap, sumP, List.range_succ, compP, comp, dxP, polyOps, nth, FieldOps.sub,
+      FieldOps.sum]
+
+open Jinns.Holds in
+/-- **the model's trace satisfies `Holds.C01`**: for every operator, field, point of the right dimension and
+    parameters, the observation made of the model's own values — at the point, again (any number of times)
+    under other values of unrelated parameters (the model has none to read), no frozen-field value — is
+    accepted. -/
+theorem model_holdsC01 (op : OpName) (sig : Sig) (d m : Nat) (u : List Poly) (nu rho : Rat)
+    (pt : List Rat) (hpt : pt.length = d + 1) (k : Nat) :
+    holdsC01 { op := op, d := d, m := m, u := u, pt := pt, nu := nu, rho := rho,
+               value := evalAll (runRev op sig d m u nu rho) pt,
+               perturbed := List.replicate k (evalAll (runRev op sig d m u nu rho) pt), frozen := none } = none := by
+  unfold holdsC01
+  simp [runRev_eq_expected, hpt]
 
 /-! ### transfer to the executable instance and non-vacuity -/
 
